@@ -52,7 +52,60 @@ class Aug(ast.NodeTransformer):
         return n
 
 
-KINDS = {"flip": Flip, "invert": Invert, "kwargs": Kwargs, "aug": Aug}
+class Noise(ast.NodeTransformer):
+    """a debug-log call at the top of every function, loop body and if-branch (pure noise for the analysed properties)"""
+    @staticmethod
+    def _log(n, what):
+        return ast.copy_location(ast.Expr(value=ast.Call(func=ast.Attribute(value=ast.Name(id="__import__('logging')", ctx=ast.Load()), attr="debug", ctx=ast.Load()),
+                                                          args=[ast.Constant(value=what)], keywords=[])), n)
+
+    def _wrap(self, n, field, what):
+        body = getattr(n, field)
+        if body:
+            first = 1 if (isinstance(body[0], ast.Expr) and isinstance(body[0].value, ast.Constant) and isinstance(body[0].value.value, str)
+                          and isinstance(n, (ast.FunctionDef, ast.AsyncFunctionDef))) else 0
+            # keep `nonlocal` / `global` declarations first
+            while first < len(body) and isinstance(body[first], (ast.Global, ast.Nonlocal)):
+                first += 1
+            body.insert(first, self._log(body[0], what))
+
+    def visit_FunctionDef(self, n):
+        self.generic_visit(n)
+        self._wrap(n, "body", f"enter {n.name}")
+        return n
+    visit_AsyncFunctionDef = visit_FunctionDef
+
+    def visit_For(self, n):
+        self.generic_visit(n)
+        self._wrap(n, "body", "loop")
+        return n
+
+    def visit_While(self, n):
+        self.generic_visit(n)
+        self._wrap(n, "body", "loop")
+        return n
+
+
+class Annot(ast.NodeTransformer):
+    """`x = v` -> `x: object = v` for plain local names inside functions"""
+    def __init__(self):
+        self.depth = 0
+
+    def visit_FunctionDef(self, n):
+        self.depth += 1
+        self.generic_visit(n)
+        self.depth -= 1
+        return n
+    visit_AsyncFunctionDef = visit_FunctionDef
+
+    def visit_Assign(self, n):
+        if self.depth and len(n.targets) == 1 and isinstance(n.targets[0], ast.Name):
+            return ast.copy_location(ast.AnnAssign(target=ast.Name(id=n.targets[0].id, ctx=ast.Store()), annotation=ast.Name(id="object", ctx=ast.Load()),
+                                                   value=n.value, simple=1), n)
+        return n
+
+
+KINDS = {"flip": Flip, "invert": Invert, "kwargs": Kwargs, "aug": Aug, "noise": Noise, "annot": Annot}
 
 
 def reshaped(src: str, kind: str) -> str:
